@@ -16,7 +16,7 @@ pkgs_of() {
 main_of() {
   case "$1" in
     q)    echo ./internal/verifh/cmd/q ;;
-    pipe) echo ./internal/listobjects/pipeline/verifh/cmd/pipe ;;
+    pipe) echo ./internal/verifh/cmd/pipe ;;
     iter) echo ./internal/verifh/cmd/iter ;;
   esac
 }
